@@ -693,7 +693,10 @@ class Env:
             out = []
             for ip in script[1]:
                 if ":" in ip:
-                    out.append((socket.AF_INET6, socket.SOCK_STREAM, socket.IPPROTO_TCP, "", (ip, port, 0, 0)))
+                    # (as the platform does: the zone of a scoped address comes back as the numeric scope id in
+                    # sockaddr[3], the address string itself carries no zone)
+                    addr, _, zone = ip.partition("%")
+                    out.append((socket.AF_INET6, socket.SOCK_STREAM, socket.IPPROTO_TCP, "", (addr, port, 0, int(zone) if zone else 0)))
                 else:
                     out.append((socket.AF_INET, socket.SOCK_STREAM, socket.IPPROTO_TCP, "", (ip, port)))
             return out
